@@ -42,6 +42,7 @@ package webdoc
 //@   assigns_rows db.document.Elements, db.textBuilder.textNodes, db.actionStack
 //@   fresh_assigns webdoc.Text.*, webdoc.BaseElement.*, webdoc.Table.*, webdoc.ElementAction.*, maps, elems(string), elems(ref), cell(Ref), cell(Slice)
 //@   ensures #rows-kept rowKept(db.document.Elements, old(db.document.Elements)) && rowKept(db.textBuilder.textNodes, old(db.textBuilder.textNodes)) && rowKept(db.actionStack, old(db.actionStack)) && db.document == old(db.document) && db.textBuilder == old(db.textBuilder)
+//@   ensures [C02] #pending-text-precedes-element db.textBuilder.firstNode == len(db.textBuilder.textNodes)
 //@   requires wfBuilder(db)
 //@   ensures wfBuilder(db)
 //@   ensures [C02] #text-then-table len(db.document.Elements) >= old(len(db.document.Elements)) + 1 &&
@@ -106,6 +107,7 @@ package webdoc
 //@   fresh_assigns webdoc.Text.*, webdoc.BaseElement.*, webdoc.Table.*, webdoc.ElementAction.*, maps, elems(string), elems(ref), cell(Ref), cell(Slice)
 //@   ensures #rows-kept rowKept(db.document.Elements, old(db.document.Elements)) && rowKept(db.textBuilder.textNodes, old(db.textBuilder.textNodes)) && rowKept(db.actionStack, old(db.actionStack)) && db.document == old(db.document) && db.textBuilder == old(db.textBuilder)
 //@   ensures [C02,C07] #text-then-tag textThenOne(db, tag)
+//@   ensures [C02] #pending-text-precedes-element db.textBuilder.firstNode == len(db.textBuilder.textNodes)
 //@   requires wfBuilder(db) && tag != nil
 //@   ensures wfBuilder(db)
 //@   ensures [C07] #tag-appended len(db.document.Elements) >= 1 && db.document.Elements[len(db.document.Elements)-1] == tag
@@ -116,6 +118,7 @@ package webdoc
 //@   fresh_assigns webdoc.Text.*, webdoc.BaseElement.*, webdoc.Table.*, webdoc.ElementAction.*, maps, elems(string), elems(ref), cell(Ref), cell(Slice)
 //@   ensures #rows-kept rowKept(db.document.Elements, old(db.document.Elements)) && rowKept(db.textBuilder.textNodes, old(db.textBuilder.textNodes)) && rowKept(db.actionStack, old(db.actionStack)) && db.document == old(db.document) && db.textBuilder == old(db.textBuilder)
 //@   ensures [C02] #text-then-embed textThenOne(db, embed)
+//@   ensures [C02] #pending-text-precedes-element db.textBuilder.firstNode == len(db.textBuilder.textNodes)
 //@   requires wfBuilder(db) && embed != nil
 //@   ensures wfBuilder(db)
 //@   ensures len(db.document.Elements) >= 1 && db.document.Elements[len(db.document.Elements)-1] == embed
